@@ -20,7 +20,7 @@ Record accepts (o : opts) (dim topo : Z) (m : meshfile) : Prop := {
   ac_ftopo : topo_req topo 3 4 (m_faces m);
   ac_ctopo : topo_req topo 4 6 (m_cells m);
   ac_fadd : add_accepts (fun hs _ => mesh_add_face o (m_edges m) hs) (m_faces m);
-  ac_cadd : add_accepts (fun hs _ => mesh_add_cell o (m_faces m) hs) (m_cells m)
+  ac_cadd : add_accepts (fun hs _ => mesh_add_cell o (m_edges m) (m_faces m) hs) (m_cells m)
 }.
 
 (* Size bounds.  None of them is a limit of the reader any more (its two 32-bit products are computed in 64 bits since
